@@ -415,8 +415,12 @@ func appBefore(l *loopInst) map[string][]byte {
 	return app
 }
 
-func trackApp(l *loopInst, ops string, before map[string][]byte) {
+func trackApp(l *loopInst, ops string, before map[string][]byte, recorded bool) {
 	t := trackOf(l.id)
+	if recorded && l.started && !l.exited {
+		// LMDB recorded the transaction (whatever its net effect): the loop may upload for it
+		t.appSinceStore = true
+	}
 	if ops == "-" {
 		return
 	}
